@@ -181,7 +181,11 @@ func HandleMessages(startTime time.Time, reader io.Reader, writer io.Writer, con
 	channels := make([]chan rtcm.Message, 0)
 
 	messageChan := make(chan rtcm.Message)
-	go writeRTCMMessages(messageChan, writer)
+	writerDone := make(chan struct{})
+	go func() {
+		writeRTCMMessages(messageChan, writer)
+		close(writerDone)
+	}()
 	channels = append(channels, messageChan)
 
 	if config.DisplayMessages {
@@ -203,4 +207,7 @@ func HandleMessages(startTime time.Time, reader io.Reader, writer io.Writer, con
 
 	// We only get to here if the handler stops.
 	close(messageChan)
+
+	// Wait for the writer to finish with the last message.
+	<-writerDone
 }
